@@ -320,6 +320,75 @@ impl<'a, MutexType, T> Drop for ChannelSendFuture<'a, MutexType, T> {
     }
 }
 
+#[cfg(futures_intrusive_verif)]
+pub(crate) fn verif_recv_node_info(
+    node: &ListNode<RecvWaitQueueEntry>,
+) -> crate::verif::NodeInfo {
+    let (prev, next) = node.verif_links();
+    let (has_waker, waker_data) = crate::verif::waker_data(&node.task);
+    crate::verif::NodeInfo {
+        prev,
+        next,
+        state: match node.state {
+            RecvPollState::Unregistered => 0,
+            RecvPollState::Registered => 1,
+            RecvPollState::Notified => 2,
+        },
+        has_waker,
+        waker_data,
+        ..Default::default()
+    }
+}
+
+#[cfg(futures_intrusive_verif)]
+pub(crate) fn verif_send_node_info<T>(
+    node: &ListNode<SendWaitQueueEntry<T>>,
+) -> crate::verif::NodeInfo {
+    let (prev, next) = node.verif_links();
+    let (has_waker, waker_data) = crate::verif::waker_data(&node.task);
+    crate::verif::NodeInfo {
+        prev,
+        next,
+        state: match node.state {
+            SendPollState::Unregistered => 0,
+            SendPollState::Registered => 1,
+            SendPollState::SendComplete => 2,
+        },
+        has_waker,
+        waker_data,
+        arg: node.value.is_some() as u64,
+        ..Default::default()
+    }
+}
+
+#[cfg(futures_intrusive_verif)]
+impl<'a, MutexType, T> ChannelReceiveFuture<'a, MutexType, T> {
+    /// Address of the embedded wait node
+    pub fn verif_node_addr(&self) -> usize {
+        &self.wait_node as *const _ as usize
+    }
+
+    /// Content of the embedded wait node. Must only be called while no other
+    /// thread can access the node (e.g. from within `verif_inspect`)
+    pub unsafe fn verif_node_info(&self) -> crate::verif::NodeInfo {
+        verif_recv_node_info(&self.wait_node)
+    }
+}
+
+#[cfg(futures_intrusive_verif)]
+impl<'a, MutexType, T> ChannelSendFuture<'a, MutexType, T> {
+    /// Address of the embedded wait node
+    pub fn verif_node_addr(&self) -> usize {
+        &self.wait_node as *const _ as usize
+    }
+
+    /// Content of the embedded wait node. Must only be called while no other
+    /// thread can access the node (e.g. from within `verif_inspect`)
+    pub unsafe fn verif_node_info(&self) -> crate::verif::NodeInfo {
+        verif_send_node_info(&self.wait_node)
+    }
+}
+
 #[cfg(feature = "alloc")]
 mod if_alloc {
     use super::*;
@@ -510,6 +579,34 @@ mod if_alloc {
                 if let Some(channel) = &self.channel {
                     channel.remove_send_waiter(&mut self.wait_node);
                 }
+            }
+        }
+
+        #[cfg(futures_intrusive_verif)]
+        impl<MutexType, T> ChannelReceiveFuture<MutexType, T> {
+            /// Address of the embedded wait node
+            pub fn verif_node_addr(&self) -> usize {
+                &self.wait_node as *const _ as usize
+            }
+
+            /// Content of the embedded wait node. Must only be called while no
+            /// other thread can access the node
+            pub unsafe fn verif_node_info(&self) -> crate::verif::NodeInfo {
+                verif_recv_node_info(&self.wait_node)
+            }
+        }
+
+        #[cfg(futures_intrusive_verif)]
+        impl<MutexType, T> ChannelSendFuture<MutexType, T> {
+            /// Address of the embedded wait node
+            pub fn verif_node_addr(&self) -> usize {
+                &self.wait_node as *const _ as usize
+            }
+
+            /// Content of the embedded wait node. Must only be called while no
+            /// other thread can access the node
+            pub unsafe fn verif_node_info(&self) -> crate::verif::NodeInfo {
+                verif_send_node_info(&self.wait_node)
             }
         }
     }
